@@ -173,7 +173,7 @@ func main() {
 			"capacity growth policy of push/append is not part of the model (only capacity >= length and grow(n) adding exactly n)",
 			"method bodies compiled one at a time (MethodCheckConcurrencyLimit=1)",
 		},
-		CaseTimeout: 900 * time.Second,
+		CaseTimeout: 1800 * time.Second,
 		Setup: func(c *engine.Ctx) {
 			elkrun.Init()
 			debug.SetGCPercent(400)
